@@ -47,7 +47,8 @@ class Prop:
     def shrink(self, case, still_bad):
         if self.run_bin is None or case.startswith("#"):
             return case
-        return core.shrink_tokens(self.run_bin, case, 1, still_bad)
+        head = {"stream": 4, "vq": 2, "net": 2, "node": 2}.get(case.split(" ")[0], 1)
+        return core.shrink_tokens(self.run_bin, case, head, still_bad, budget=60)
 
     def known_match(self, entry, v):
         ident = entry.get("identity", {})
